@@ -56,7 +56,7 @@ def _sequence(ctx, rep):
         return ns[0]
 
     # ------------------------------------------------------------------ R1 sequence
-    assume = cfg.assume({"recorder is False": True, "market is None": False})
+    assume = cfg.assume({"recorder": False, "market is None": False})
     close_n, close_c = one("close_market")
     mk = [n for n in cfg.live_nodes() if any(isinstance(c.func, ast.Name) and c.func.id == "market" for c in calls_in(n))]
     if len(mk) != 1:
@@ -73,7 +73,7 @@ def _sequence(ctx, rep):
               key(f, None, "the market is marked closed unless it already is"), f, close_c, str(gs))
     for n, what in ((mk, "the market receives the final book"), (pcm_n, "orders receive results and settlement terms")):
         gs = [(utext(g.exprs[0]), pol) for g, pol in cfg.guards(n.id)]
-        rep.check(sorted(gs) == sorted([("market is None", False), ("recorder is False", True)]), "R1",
+        rep.check(sorted(gs) == sorted([("market is None", False), ("recorder", False)]), "R1",
                   key(f, None, "%s for every book update" % what), f, n.exprs[0], str(gs))
     mkc = [c for c in calls_in(mk) if isinstance(c.func, ast.Name) and c.func.id == "market"][0]
     rep.check(utext(mkc.args[0]) == "market_book" and [utext(a) for a in pcm_c.args] == ["market", "event.event"], "R1",
@@ -82,7 +82,7 @@ def _sequence(ctx, rep):
              (log_n, "log_control(event)")]
     for (a, an), (b, bn) in zip(chain[1:], chain[2:]):
         rep.check(cfg.dominates(a.id, b.id, assume), "R1", key(f, None, "%s precedes %s" % (an, bn)), f, b.exprs[0] if b.exprs else None)
-    rep.check(mk.id not in cfg.reachable(cfg.entry, [close_n.id], cfg.assume({"market.closed is False": True, "market is None": False, "recorder is False": True})),
+    rep.check(mk.id not in cfg.reachable(cfg.entry, [close_n.id], cfg.assume({"market.closed is False": True, "market is None": False, "recorder": False})),
               "R1", key(f, None, "close_market precedes market(book) when the market was open"), f)
     gs = [(utext(g.exprs[0]), pol) for g, pol in cfg.guards(log_n.id)]
     rep.check(gs == [("market is None", False)] and utext(log_c.args[0]) == "event", "R1",
@@ -100,7 +100,7 @@ def _sequence(ctx, rep):
     co_n, co_c = one("_process_cleared_orders")
     cm_n, cm_c = one("_process_cleared_markets")
     gs_o = sorted((utext(g.exprs[0]), pol) for g, pol in cfg.guards(co_n.id))
-    want = sorted([("market is None", False), ("recorder is False", True), ("self.clients.simulated", True)])
+    want = sorted([("market is None", False), ("recorder", False), ("self.clients.simulated", True)])
     cl = [lp for lp in walk_nodes(f.node.body, ast.For) if utext(lp.iter) == "self.clients"]
     good = gs_o == want and len(cl) == 1 and cm_c in walk_calls(cl[0].body) and co_c not in walk_calls(cl[0].body) \
         and not loop_body_exits_early(cl[0]) and co_c.lineno < cl[0].lineno
@@ -110,7 +110,7 @@ def _sequence(ctx, rep):
     rep.check(len(mc) == 1 and utext(mc[0].args[0]) == utext(cl[0].target) and recv_text(mc[0]) == "market", "R1",
               key(f, None, "each client's summary is computed for that client"), f)
     rep.check(cfg.dominates(sl.id, co_n.id, assume) and cfg.dominates(co_n.id, log_n.id, cfg.assume(
-        {"recorder is False": True, "market is None": False, "self.clients.simulated": True})), "R1",
+        {"recorder": False, "market is None": False, "self.clients.simulated": True})), "R1",
         key(f, None, "cleared events come after the strategy callbacks and before the log"), f)
     pco = prog.own_method("BaseFlumine", "_process_cleared_orders")
     cfgp = ctx.cfg(pco)
